@@ -30,6 +30,10 @@ class Refuse(BaseException):
     pass
 
 
+class SymbolicText(BaseException):
+    """a returned string contains the text of a symbolic value (str(x), '%d' % x): no Gallina counterpart - an unmodelled leaf"""
+
+
 class Unmodelled(BaseException):
     """this path does something the translation has no counterpart for (a float, a division by a variable ...).  It becomes a leaf
     `fail EOutOfFuel`, an outcome the model never has: the equivalence theorem is provable only if the path cannot be taken"""
@@ -71,7 +75,7 @@ def coq(e):
     if e.op == 'bitlen':
         return '(py_bit_length %s)' % coq(e.args[0])
     if e.op == 'len':
-        return '(Z.of_nat (length %s))' % coq(e.args[0])
+        return '(Z.of_nat (List.length %s))' % coq(e.args[0])
     if e.op == 'not':
         return '(negb %s)' % coq(e.args[0])
     if e.op in ('dmem', 'dget'):
@@ -101,12 +105,81 @@ class Explorer:
         for a, b in self.trace:
             if a.key() == k:
                 return b
+        known = self.implied(atom)
+        if known is not None:
+            return known
         i = len(self.trace)
         b = self.prefix[i][1] if i < len(self.prefix) else True
         if i < len(self.prefix) and self.prefix[i][0] != k:
             raise Refuse('the function is not deterministic: decision %d differs between two executions' % i)
         self.trace.append((atom, b))
         return b
+
+    @staticmethod
+    def var_const(atom):
+        """(variable name, constant, shape) for the atoms  var < c ('vc'),  c < var ('cv'),  var = c ('eq');  else None"""
+        a, b = atom.args
+        av = a.args[0] if isinstance(a, E) and a.op == 'var' and a.ty == 'Z' else None
+        bv = b.args[0] if isinstance(b, E) and b.op == 'var' and b.ty == 'Z' else None
+        ac = a if isinstance(a, int) and not isinstance(a, bool) else None
+        bc = b if isinstance(b, int) and not isinstance(b, bool) else None
+        if atom.op == 'lt':
+            if av is not None and bc is not None:
+                return av, bc, 'vc'
+            if ac is not None and bv is not None:
+                return bv, ac, 'cv'
+        elif atom.op == 'eq':
+            if av is not None and bc is not None:
+                return av, bc, 'eq'
+            if ac is not None and bv is not None:
+                return bv, ac, 'eq'
+        return None
+
+    def implied(self, atom):
+        """the truth of `atom` when the decisions already taken on this path fix it - only for comparisons of ONE integer variable with
+        a constant (interval of the variable + excluded values).  Saves walking paths no argument can take; part of the trusted base."""
+        vc = self.var_const(atom)
+        if vc is None:
+            return None
+        var, c, shape = vc
+        lo, hi, excluded = None, None, set()
+        for a, b in self.trace:
+            t = self.var_const(a)
+            if t is None or t[0] != var:
+                continue
+            _, d, sh = t
+            if sh == 'vc':        # var < d
+                if b:
+                    hi = d - 1 if hi is None else min(hi, d - 1)
+                else:
+                    lo = d if lo is None else max(lo, d)
+            elif sh == 'cv':      # d < var
+                if b:
+                    lo = d + 1 if lo is None else max(lo, d + 1)
+                else:
+                    hi = d if hi is None else min(hi, d)
+            else:
+                if b:
+                    lo = d if lo is None else max(lo, d)
+                    hi = d if hi is None else min(hi, d)
+                else:
+                    excluded.add(d)
+        if shape == 'vc':         # var < c
+            if hi is not None and hi < c:
+                return True
+            if lo is not None and lo >= c:
+                return False
+        elif shape == 'cv':       # c < var
+            if lo is not None and lo > c:
+                return True
+            if hi is not None and hi <= c:
+                return False
+        else:
+            if (lo is not None and c < lo) or (hi is not None and c > hi) or c in excluded:
+                return False
+            if lo is not None and hi is not None and lo == hi == c:
+                return True
+        return None
 
     def run_all(self, thunk):
         leaves = []
@@ -702,7 +775,7 @@ def force(v, ty):
         if _real_isinstance(v, SymBool):
             return bool(v)
         return v
-    if ty in ('Z', 'Y', 'S'):
+    if ty in ('Z', 'Y', 'S', 'T'):
         return v
     if ty[0] == 'opt':
         return None if v is None else force(v, ty[1])
@@ -731,6 +804,12 @@ def render_value(v, ty):
         if _real_isinstance(v, (bytes, bytearray)):
             return '[' + '; '.join(str(b) for b in v) + ']'
         raise Refuse('result is not a byte string: %r' % (v,))
+    if ty == 'T':
+        if not _real_isinstance(v, str) or '"' in v or any(ord(c) < 32 or ord(c) > 126 for c in v):
+            raise Refuse('result is not a printable string: %r' % (v,))
+        if '<sym>' in v:
+            raise SymbolicText()
+        return '"%s"%%string' % v
     if ty == 'S':
         parts = []
         for it in v:
@@ -757,6 +836,8 @@ def coq_type(ty):
         return 'bytes'
     if ty == 'S':
         return '(list Z)'
+    if ty == 'T':
+        return 'string'
     if ty[0] == 'seq':
         return 'bytes'
     if ty[0] == 'opt':
@@ -799,7 +880,10 @@ def translate(spec):
             outs = []
             for tr, (kind, v) in leaves:
                 if kind == 'ret':
-                    outs.append((tr, 'ret %s' % render_value(v, spec['result'])))
+                    try:
+                        outs.append((tr, 'ret %s' % render_value(v, spec['result'])))
+                    except SymbolicText:
+                        outs.append((tr, 'fail EOutOfFuel (* the result contains the text of a symbolic value: not expressed *)'))
                 elif kind == 'unmodelled':
                     outs.append((tr, 'fail EOutOfFuel (* a path the translation cannot express: provably never taken, or the theorem fails *)'))
                 else:
@@ -846,7 +930,7 @@ def translate(spec):
 
 HEADER = '''(* GENERATED by tools/symtrans.py from %s (the functions were executed on symbolic arguments; every path is a branch below)
    -- do not edit; rewritten on every run. *)
-From Coq Require Import ZArith List Bool.
+From Coq Require Import ZArith List Bool String.
 From UDS Require Import Lib.Bytes Lib.ErrM Lib.PyOps.
 Import ListNotations.
 Open Scope Z_scope.
